@@ -139,12 +139,39 @@ class Comm:
         res = self._coll("gather", root=wroot, data=pickle.dumps(obj))
         return None if res is None else [pickle.loads(x) for x in res]
 
+    # collectives composed from the ones above (their synchronisation is at least what the standard demands of them,
+    # never less than a legal implementation may show: gather + bcast)
+    def allgather(self, obj):
+        return self.bcast(self.gather(obj, root=0), root=0)
+
+    def scatter(self, objs=None, root=0):
+        return self.bcast(objs, root=root)[self.Get_rank()]
+
+    def reduce(self, obj, op=None, root=0):
+        parts = self.gather(obj, root=root)
+        return None if parts is None else _fold(parts, op)
+
+    def allreduce(self, obj, op=None):
+        return _fold(self.allgather(obj), op)
+
     def Split(self, color=0, key=0):
         return self._coll("split", color=color, key=key)
 
     def Free(self):
         if WORLD is not None and self.cid != 0:
             pass  # freeing is local in this model; use after Free by the same rank is not tracked
+
+
+SUM, PROD, MAX, MIN, LAND, LOR = "sum", "prod", "max", "min", "land", "lor"
+
+
+def _fold(parts, op):
+    import functools
+    import operator
+
+    fn = {None: operator.add, SUM: operator.add, PROD: operator.mul, MAX: max, MIN: min,
+          LAND: lambda a, b: bool(a) and bool(b), LOR: lambda a, b: bool(a) or bool(b)}[op]
+    return functools.reduce(fn, parts)
 
 
 COMM_WORLD = Comm(range(int(os.environ.get("FAKE_MPI_SIZE", "2"))), 0)
